@@ -78,8 +78,8 @@ func replayDriveOne(cfg Config, v *Violation) int {
 
 type driveEvent struct {
 	Ev        string      `json:"ev"`
-	H         int         `json:"h"`    // history number
-	I         int         `json:"i"`    // step inside the history
+	H         int         `json:"h"` // history number
+	I         int         `json:"i"` // step inside the history
 	AfterUndo bool        `json:"after_undo,omitempty"`
 	Inst      string      `json:"inst,omitempty"`
 	Partial   bool        `json:"partial"`
@@ -96,15 +96,15 @@ type driveEvent struct {
 	Td        [][2]uint64 `json:"td"`
 	Ndel      [][]any     `json:"ndel"`
 	Nadd      [][]any     `json:"nadd"`
-	Op        string      `json:"op,omitempty"` // pop: vrem | ingest | prune
-	Cached    []int       `json:"cached"`       // stored: the leaves in the instance's index
-	Nodes     [][]any     `json:"nodes"`        // stored: every stored [row, idx, hash]
-	Prem      [][]any     `json:"prem"`         // mod: per partial instance [name, [added slots it was asked to remember]]
+	Op        string      `json:"op,omitempty"`  // pop: vrem | ingest | prune
+	Cached    []int       `json:"cached"`        // stored: the leaves in the instance's index
+	Nodes     [][]any     `json:"nodes"`         // stored: every stored [row, idx, hash]
+	Prem      [][]any     `json:"prem"`          // mod: per partial instance [name, [added slots it was asked to remember]]
 	API       string      `json:"api,omitempty"` // accept: the verifier that accepted
 	Hs        []string    `json:"hs"`            // accept: the claimed hashes
 	Tg        [][2]uint64 `json:"tg"`            // accept: the claimed positions
-	Rem       []int       `json:"rem"`   // mod: slots the light client asked to remember
-	Lossy     bool        `json:"lossy"` // hold: taken after undoing a block that overwrote an empty root (known finding C08-F1)
+	Rem       []int       `json:"rem"`           // mod: slots the light client asked to remember
+	Lossy     bool        `json:"lossy"`         // hold: taken after undoing a block that overwrote an empty root (known finding C08-F1)
 }
 
 func newEv(ev string, h, i int) driveEvent {
@@ -113,27 +113,28 @@ func newEv(ev string, h, i int) driveEvent {
 }
 
 type driveWorld struct {
-	sy     *Symb
-	rng    *rand.Rand
-	n      uint64
-	live   map[int]bool
-	stump  utreexo.Stump
-	stumps []utreexo.Stump
-	insts  []*Inst
-	stack  []driveSaved
-	out    *json.Encoder
-	h, i   int
-	fails  []Fail
-	calls  int
-	afterUndo bool
-	pending   []func() driveEvent
-	lcP       utreexo.Proof // the light client's cached proof
-	lcH       []Hash        // and leaf hashes
-	lcBroken  bool
-	lcLossy   bool // the last undo was of a block with a non-empty ToDestroy
-	held      map[int]bool // what the light client was asked to hold (bookkeeping of the requests made)
-	nmut      int
-	script    *scriptedBlock // scripted scenarios (sparse tall forests): the next block
+	sy         *Symb
+	rng        *rand.Rand
+	n          uint64
+	live       map[int]bool
+	stump      utreexo.Stump
+	stumps     []utreexo.Stump
+	insts      []*Inst
+	stack      []driveSaved
+	out        *json.Encoder
+	h, i       int
+	fails      []Fail
+	calls      int
+	afterUndo  bool
+	pending    []func() driveEvent
+	lcP        utreexo.Proof // the light client's cached proof
+	lcH        []Hash        // and leaf hashes
+	lcBroken   bool
+	lcLossy    bool         // the last undo was of a block with a non-empty ToDestroy
+	held       map[int]bool // what the light client was asked to hold (bookkeeping of the requests made)
+	nmut       int
+	sparseTall bool           // sparse scenario with a 12-row subtree: TLC judges the roots only
+	script     *scriptedBlock // scripted scenarios (sparse tall forests): the next block
 }
 
 // scriptedBlock fixes the deletions, the number of additions and which
